@@ -109,6 +109,34 @@ func checkDeferredOnlyReject(c *Ctx, rule string, fn *ssa.Function) {
 			c.Fail(rule, funcName(fn)+":closure-sets-verdict", st.Pos(), "a closure of the verifier assigns a non-false value to its boolean result: "+p.TermOf(st.Val).String())
 		})
 	}
+	// the same for a named function that is handed the address of the boolean result (defer reject(&ok))
+	eachInstr(fn, func(in ssa.Instruction) {
+		cc := callCommon(in)
+		if cc == nil {
+			return
+		}
+		for i, a := range cc.Args {
+			al, ok := a.(*ssa.Alloc)
+			if !ok || !isBool(deref(al.Type())) {
+				continue
+			}
+			g := cc.StaticCallee()
+			if g == nil || len(g.Blocks) == 0 || i >= len(g.Params) {
+				c.Fail(rule, funcName(fn)+":closure-sets-verdict", in.Pos(), "the address of the verifier's boolean result is handed to code that cannot be inspected")
+				continue
+			}
+			eachInstr(g, func(i2 ssa.Instruction) {
+				st, ok := i2.(*ssa.Store)
+				if !ok || st.Addr != ssa.Value(g.Params[i]) {
+					return
+				}
+				if k, ok := st.Val.(*ssa.Const); ok && k.Value != nil && k.Value.String() == "false" {
+					return
+				}
+				c.Fail(rule, funcName(fn)+":closure-sets-verdict", st.Pos(), "a function handed the verifier's boolean result assigns a non-false value to it: "+p.TermOf(st.Val).String())
+			})
+		}
+	})
 }
 
 func c02R1(c *Ctx, dv, hyV, hiV *ssa.Function) {
@@ -183,22 +211,58 @@ func hasEqualFact(cs []Cond, isA, isB func(*Term) bool) bool {
 
 // staticCalleesReturning: module callees of fn (direct) whose first result type is named `typeName` (pointer or value).
 func staticCalleesReturning(p *Program, fn *ssa.Function, pkg, typeName string) []*ssa.Function {
-	seen := map[*ssa.Function]bool{}
-	var out []*ssa.Function
-	eachInstr(fn, func(in ssa.Instruction) {
-		cc := callCommon(in)
-		if cc == nil {
-			return
+	// searched in fn and, when fn itself has none, in the helpers it delegates to, level by
+	// level, so that extracting the recomputation into a method of the proof does not hide it
+	level := []*ssa.Function{fn}
+	visited := map[*ssa.Function]bool{fn: true}
+	for depth := 0; depth < 3 && len(level) > 0; depth++ {
+		seen := map[*ssa.Function]bool{}
+		var out, next []*ssa.Function
+		for _, g := range level {
+			eachInstr(g, func(in ssa.Instruction) {
+				cc := callCommon(in)
+				if cc == nil {
+					return
+				}
+				f := cc.StaticCallee()
+				if f == nil || seen[f] || f.Signature.Results().Len() == 0 {
+					if f != nil && !visited[f] && p.isHelperOf(fn, f) {
+						visited[f] = true
+						next = append(next, f)
+					}
+					return
+				}
+				if namedIs(f.Signature.Results().At(0).Type(), pkg, typeName) && f.Signature.Recv() == nil && f.Pkg != nil && p.inModule(f.Pkg.Pkg.Path()) {
+					seen[f] = true
+					out = append(out, f)
+				} else if !visited[f] && p.isHelperOf(fn, f) {
+					visited[f] = true
+					next = append(next, f)
+				}
+			})
 		}
-		f := cc.StaticCallee()
-		if f == nil || seen[f] || f.Signature.Results().Len() == 0 {
-			return
+		if len(out) > 0 {
+			return out
 		}
-		if namedIs(f.Signature.Results().At(0).Type(), pkg, typeName) && f.Signature.Recv() == nil && f.Pkg != nil && p.inModule(f.Pkg.Pkg.Path()) {
-			seen[f] = true
-			out = append(out, f)
-		}
-	})
+		level = next
+	}
+	return nil
+}
+
+// xConds: the conditions with helper calls in their atoms expanded (calls to `keep` stay opaque).
+func xConds(p *Program, cs []Cond, keep ...*ssa.Function) []Cond {
+	out := make([]Cond, len(cs))
+	for i, k := range cs {
+		out[i] = k
+		out[i].Atom = p.XAll(k.Atom, func(f *ssa.Function) bool {
+			for _, g := range keep {
+				if f == g {
+					return true
+				}
+			}
+			return false
+		})
+	}
 	return out
 }
 
@@ -229,6 +293,7 @@ func c02R2(c *Ctx, hyV *ssa.Function) {
 	}
 	bad := 0
 	for i, cs := range paths {
+		cs = xConds(p, cs, pr)
 		var missing []string
 		// non-empty audit path: !EQ(len(P0.AuditPath),0) or LT(0,len) ...
 		nonEmpty := hasCond(cs, func(k Cond) bool {
@@ -291,6 +356,7 @@ func c02R3(c *Ctx, hiV *ssa.Function) {
 		return
 	}
 	for i, cs := range paths {
+		cs = xConds(p, cs, pr)
 		if !hasEqualFact(cs, recomputed, isParam(hiV, 2)) {
 			bad++
 			c.Fail("R3", name, hiV.Pos(), fmt.Sprintf("accepting path #%d lacks Equal(recompute(p.Index,p.Version,eventDigest), expectedRootHash); holds under {%s}", i, strings.Join(condStrings(cs), " ∧ ")))
@@ -299,20 +365,21 @@ func c02R3(c *Ctx, hiV *ssa.Function) {
 	// leaf payload provenance inside the traversal: every leaf-hash op is built from the digest parameter
 	leafCtor := p.Func(pkgHistory, "newLeafHashOp")
 	nLeaf := 0
-	eachInstrDeep(pr, func(fn *ssa.Function, in ssa.Instruction) {
+	prRegion := p.RegionOf(pr, 3) // the traversal may be a closure or a recursive package-level helper
+	prRegion.Instrs(func(site regionSite, in ssa.Instruction) {
 		cc := callCommon(in)
 		if cc == nil {
 			return
 		}
 		f := cc.StaticCallee()
-		if f == nil || !namedIs(f.Signature.Results().At(0).Type(), pkgHistory, "leafHashOp") {
+		if f == nil || f.Signature.Results().Len() == 0 || !namedIs(f.Signature.Results().At(0).Type(), pkgHistory, "leafHashOp") {
 			return
 		}
 		if leafCtor != nil && f != leafCtor {
 			return
 		}
 		nLeaf++
-		val := p.TermOf(cc.Args[len(cc.Args)-1])
+		val := prRegion.Term(site, cc.Args[len(cc.Args)-1])
 		if !val.IsParam(pr, 2) {
 			bad++
 			c.Fail("R3", funcName(pr)+":leaf-payload", in.Pos(), "leaf hash payload is "+val.String()+", not the caller's digest parameter")
